@@ -1104,6 +1104,12 @@ class UnitDatabase(Singleton):
                 % ((from_unit, from_exp), (to_unit, to_exp))
             )
 
+        if from_exp < 0:
+            # a reciprocal power converts like the positive power in the opposite direction
+            # (also keeps a zero amount away from math.pow(0.0, negative))
+            from_unit, to_unit = to_unit, from_unit
+            from_exp = to_exp = -from_exp
+
         if from_exp == to_exp == 1:
             # Special case handling
             return self.Convert(quantity_type, from_unit, to_unit, value)
